@@ -3,7 +3,7 @@
     about the exact-rational instance [Qops] of the generic policy code of
     C10/Model.v (the binary64 instance [Fops] of the same code is what the
     correspondence compares with /repo off the dyadic grid).  Times are ns. *)
-From HS Require Import Base.Prelude C10.Model C10.QFacts C10.TokenBucket C10.Leaky C10.Sliding C10.Fixed C10.Adaptive C10.Entity.
+From HS Require Import Base.Prelude C10.Model C10.QFacts C10.TokenBucket C10.Leaky C10.Sliding C10.Fixed C10.Adaptive C10.Entity C10.Dist.
 From Coq Require Import QArith Permutation.
 Local Open Scope Q_scope.
 
@@ -79,6 +79,12 @@ Theorem c10_sliding_window_bound : forall wn n ops, sorted ops ->
   windows_ok wn n [] (run_times (sw_step Qops wn n) [] ops).
 Proof. exact sw_never_over_admits. Qed.
 Print Assumptions c10_sliding_window_bound.
+
+(** ... in the usual form: at most N grants in any closed window [a, a + w]. *)
+Theorem c10_sliding_any_window : forall wn n ops a, (0 <= n)%Z -> sorted ops ->
+  (length (filter (in_range wn a) (run_times (sw_step Qops wn n) [] ops)) <= Z.to_nat n)%nat.
+Proof. exact sw_any_window. Qed.
+Print Assumptions c10_sliding_any_window.
 
 Theorem c10_sliding_tua_zero : forall wn n log now log1,
   sw_tua Qops wn n log now = (log1, 0%Z) ->
@@ -209,3 +215,29 @@ Theorem c10_entity_fifo_partial : forall PS pacq ptua cap ps ins,
   incr (-1) (fwd_ids (snd (fst (ent_run PS pacq ptua cap (ent_init PS ps) ins)))).
 Proof. exact ent_fifo_partial. Qed.
 Print Assumptions c10_entity_fifo_partial.
+
+(* ------------------------------------------------------------------ Inductor, NullRateLimiter *)
+(** Inductor (EWMA burst smoother): every request forwarded, queued or dropped exactly once —
+    for any weights alpha (the exp() results are inputs), any time constant, any capacity. *)
+Theorem c10_inductor_conservation : forall (O : numops) (dflt : Model.num O) cap ins (e : ent (ips O)),
+  let '(e', outs, dr) := ind_run O dflt cap e ins in
+  Permutation (e_queue e ++ ireq_ids O ins) (fwd_ids outs ++ e_queue e' ++ dr) /\
+  (e_recv e' = e_recv e + Z.of_nat (length (ireq_ids O ins)))%Z /\
+  (e_fwd e' = e_fwd e + Z.of_nat (length (fwd_ids outs)))%Z /\
+  (e_drop e' = e_drop e + Z.of_nat (length dr))%Z.
+Proof. exact ind_conservation. Qed.
+Print Assumptions c10_inductor_conservation.
+
+Theorem c10_null_forwards_all : forall reqs : list (Z * Z),
+  fwd_ids (flat_map (fun r => null_step (fst r) (snd r)) reqs) = map fst reqs.
+Proof. exact null_forwards_all. Qed.
+Print Assumptions c10_null_forwards_all.
+
+(* ------------------------------------------------------------------ DistributedRateLimiter *)
+(** received = forwarded + dropped + suspended-at-a-store-access, per limiter instance, after any
+    interleaving of handler starts and resumptions (generator handler: one step per resumption). *)
+Theorem c10_distributed_conservation : forall limit es,
+  let w := fst (dist_run limit dworld_init es) in
+  forall l, (d_recv (w_lims w l) = d_fwd (w_lims w l) + d_drop (w_lims w l) + inflight w l)%Z.
+Proof. intros limit es. exact (dist_conservation limit es dworld_init dinv_init). Qed.
+Print Assumptions c10_distributed_conservation.
